@@ -88,15 +88,16 @@ func (u *Unit) callVals(fr *Frame, st *State, c *ssa.CallCommon, fn Val, args []
 		if v, ok := u.dispatchFuncVar(fr, st, c, f, args, pos); ok {
 			return v
 		}
-		// a named func type with a contract (e.g. context.CancelFunc)
-		if ct := u.prog.specs.Contracts["functype:"+namedKey(c.Value.Type())]; ct != nil {
-			return resultsToVal(sig, u.applyContract(fr, st, ct, sig, args, false, pos, "functype:"+namedKey(c.Value.Type())))
-		}
-		// dynamic function value: field-func contract?
+		// dynamic function value: a contract on this very field (more specific than one on
+		// its func type: two CancelFunc fields of one struct end different things)
 		if key := fieldFuncKey(c.Value); key != "" {
 			if ct := u.prog.specs.Contracts["fieldfunc:"+key]; ct != nil {
 				return resultsToVal(sig, u.applyContract(fr, st, ct, sig, args, false, pos, key))
 			}
+		}
+		// a named func type with a contract (e.g. context.CancelFunc)
+		if ct := u.prog.specs.Contracts["functype:"+namedKey(c.Value.Type())]; ct != nil {
+			return resultsToVal(sig, u.applyContract(fr, st, ct, sig, args, false, pos, "functype:"+namedKey(c.Value.Type())))
 		}
 		return u.uncontracted(st, sig, "dynamic call "+c.Value.Name(), pos)
 	}
@@ -555,7 +556,17 @@ func (u *Unit) builtin(fr *Frame, st *State, name string, c *ssa.CallCommon, arg
 		st.heap[ln] = u.ctx.Define(ln, Store(l, m, Ite(had, Sub(Select(l, m), IntLit(1)), Select(l, m))))
 		st.heap[dom] = u.ctx.Define(dom, Store(d, m, Store(Select(d, m), k, False)))
 		return nil
-	case "print", "println", "close":
+	case "close":
+		// built-in ghost `closeCalls` (when a spec declares it): how many channels the unit
+		// has closed so far - a send must come before the close of its channel
+		if g, ok := u.prog.specs.GhostVars["closeCalls"]; ok {
+			if _, sort := u.resolveType(g.GoType, g.PkgPath); sort == SInt {
+				cur := u.loadLoc(st, "G!closeCalls", SInt, ghostPtr)
+				u.storeLoc(st, "G!closeCalls", SInt, ghostPtr, Add(cur, IntLit(1)))
+			}
+		}
+		return nil
+	case "print", "println":
 		return nil
 	case "Slice":
 		// unsafe.Slice(ptr, n): a view of memory we do not model; only its length is known
